@@ -309,9 +309,10 @@ class EntryRun:
         self.raised: Optional[str] = None
         self.result: Any = None
         self.lookup_lists: List[List[str]] = []
+        self.identities: List[Dict[str, Any]] = []  # of every definition read: what its file path was taken to mean
 
 
-def run_entry(ctx: Ctx, entry: str, args: List[Any], files: Dict[str, List[Tuple[str, int, int]]], kwargs: Optional[Dict[str, Any]] = None, broken: Sequence[str] = ()) -> EntryRun:
+def run_entry(ctx: Ctx, entry: str, args: List[Any], files: Dict[str, List[Tuple[str, int, int]]], kwargs: Optional[Dict[str, Any]] = None, broken: Sequence[str] = (), cwd: Optional[str] = None) -> EntryRun:
     """files: path -> references [(full name, major, minor)] of the definition in that file; `broken`: paths whose read fails
     (a definition that violates some rule)"""
     from ..absint import AObj, call_fn
@@ -331,7 +332,10 @@ def run_entry(ctx: Ctx, entry: str, args: List[Any], files: Dict[str, List[Tuple
         raise AnalysisError("DSDLDefinition.composite_type is not a plain accessor of a field: the per-file read cannot be stubbed")
     run = EntryRun()
     saved = list(APath.FS)
+    saved_cwd, saved_strict = APath.CWD, APath.STRICT
     APath.FS = list(files)
+    if cwd is not None:
+        APath.CWD, APath.STRICT = cwd, True
     base = _hook(ctx, fn.module, [], record=[])
 
     def path_of(d: Any) -> str:
@@ -343,6 +347,14 @@ def run_entry(ctx: Ctx, entry: str, args: List[Any], files: Dict[str, List[Tuple
             return have
         p = path_of(d)
         run.reads.append(p)
+        ident = {"file": p}
+        for a_ in ("full_name", "version", "fixed_port_id", "root_namespace", "root_namespace_path"):
+            try:
+                x_ = _prop(ctx, d, a_)
+                ident[a_] = tuple(x_) if a_ == "version" else (str(x_) if a_.endswith("path") else x_)
+            except AnalysisError:
+                ident[a_] = "?"
+        run.identities.append(ident)
         lk = list(lookups)
         run.lookup_lists.append(sorted(path_of(x) for x in lk))
         if p in broken:
@@ -381,4 +393,5 @@ def run_entry(ctx: Ctx, entry: str, args: List[Any], files: Dict[str, List[Tuple
         raise AnalysisError("%s: cannot evaluate over the abstract file system: %s" % (fn.short, ex))
     finally:
         APath.FS = saved
+        APath.CWD, APath.STRICT = saved_cwd, saved_strict
     return run
